@@ -1,7 +1,474 @@
-"""C05 — not implemented yet (fail closed)."""
-from ..model import AnalysisError
+"""C05 Wildcard -> prefixes: no stale derived value, limits reject (never truncate), rejection propagates."""
+
+from __future__ import annotations
+
+import ast
+from typing import Dict, List, Optional, Set, Tuple
+
+from ..cfg import Node, exc_is_subclass, handler_classes
+from ..core import Ctx, Report, snippet, where
+from ..intervals import IntSet, NotInterval, cond_to_intset, relation
+from ..model import AnalysisError, Class, Func, own_nodes, src
+from ..pathsem import function_paths, resolve_local
+from .common import chain, deep_resolve, reachable_without_edges
+
 PROPERTY = "C05"
 LEVEL = "other"
-EXPLANATION = "not implemented"
-def run(ctx, rep, tier):
-    raise AnalysisError("rules for C05 are not implemented yet")
+EXPLANATION = (
+    "Decides the history clause (no memoised or partially updated derived value can survive a reassignment of the "
+    "line), the reject-never-truncate clause (the limit is compared as count > limit on the very list that is returned, "
+    "on the only path, with the limit range 0..30) and that the rejection is not swallowed on the way up to the "
+    "constructors. Does not decide exactness of the expansion (cover, disjointness, 2^k count, single-network "
+    "detection): statements about 2^64 bit patterns."
+)
+ASSUMPTIONS = ["ipaddress raises only ValueError subclasses for malformed text"]
+
+CACHE_DECORATORS = {"lru_cache", "cache", "cached_property"}
+
+# handlers that may swallow a ValueError raised by an over-limit member: governed by C12 (member dropped with a log record)
+C12_GOVERNED = {"AddrGroup.line.setter": "address-group member loop: logs and drops the member (C12 R12.5)"}
+
+
+def memo_rules(ctx: Ctx, rep: Report, rid: str = "R05.1", only_class: Optional[str] = None) -> int:  # noqa: C901
+    """Memo soundness for functools caches and for instance-attribute memos. Returns number of memos found."""
+    rep.rule(rid)
+    found = 0
+    ef = ctx.effects
+    for cls in ctx.prog.classes.values():
+        if only_class and cls.name != only_class:
+            continue
+        for f in list(cls.methods.values()) + list(cls.getters.values()):
+            # ---- functools caches keyed by the receiver
+            decs = [d for d in f.decorators if d in CACHE_DECORATORS]
+            if decs:
+                found += 1
+                rep.instance()
+                reads = ef.self_reads(f, None)
+                mutable = _mutable_after_init(ctx, cls)
+                key = _hash_key(ctx, cls)
+                stale = sorted((reads & mutable) - key)
+                if stale:
+                    writers = sorted({w for a in stale for w in _writers_of(ctx, cls, a)})
+                    rep.violation(
+                        f.qualname,
+                        f"@{decs[0]} over attributes {stale}",
+                        f"the cache is keyed by {'object identity' if not key else sorted(key)} but the result depends on {stale}, "
+                        f"which {writers} reassign: a query after a reassignment answers for the old value",
+                        where(f),
+                        inp='w = Wildcard("10.0.0.0 0.0.0.3"); w.ipnets(); w.line = "20.0.0.0 0.0.0.255"; w.ipnets()',
+                    )
+                else:
+                    rep.ok(f"{f.qualname} @{decs[0]}", "reads no attribute that can change after construction (or all are part of the hash key)", where=where(f))
+                continue
+            # ---- instance memo: `if self._m...: return self._m` ... `self._m = value`
+            memo = _instance_memo(f)
+            if memo is None:
+                continue
+            found += 1
+            rep.instance()
+            deps = ef.self_reads(f, None) - {memo}
+            resets_needed = []
+            for g in cls.all_funcs():
+                if g is f or g.name == "__init__":
+                    continue
+                direct = {t.attr for n in own_nodes(g.node) if isinstance(n, (ast.Assign, ast.AnnAssign, ast.AugAssign)) for t in (n.targets if isinstance(n, ast.Assign) else [n.target]) if isinstance(t, ast.Attribute) and src(t.value) == "self"}
+                if direct & deps:
+                    resets_needed.append((g, sorted(direct & deps)))
+            if not resets_needed:
+                rep.ok(f"{f.qualname}: memo {memo}", "no method other than __init__ writes what the memo depends on", where=where(f))
+            for g, attrs in resets_needed:
+                cfg = ctx.cfg(g)
+
+                def is_reset(n: Node) -> bool:
+                    if n.kind == "stmt" and isinstance(n.ast, (ast.Assign, ast.AnnAssign)):
+                        tg = n.ast.targets if isinstance(n.ast, ast.Assign) else [n.ast.target]
+                        for t in tg:
+                            if isinstance(t, ast.Attribute) and src(t.value) == "self" and t.attr == memo:
+                                v = n.ast.value
+                                return isinstance(v, ast.Constant) and not v.value or isinstance(v, (ast.List, ast.Dict, ast.Tuple, ast.Set)) and not getattr(v, "elts", getattr(v, "keys", []))
+                    if n.kind == "stmt" and isinstance(n.ast, ast.Delete):
+                        return any(isinstance(t, ast.Attribute) and t.attr == memo for t in n.ast.targets)
+                    return False
+
+                def is_dep_write(n: Node) -> bool:
+                    if n.kind == "stmt" and isinstance(n.ast, (ast.Assign, ast.AnnAssign, ast.AugAssign)):
+                        tg = n.ast.targets if isinstance(n.ast, ast.Assign) else [n.ast.target]
+                        return any(isinstance(t, ast.Attribute) and src(t.value) == "self" and t.attr in attrs for t in tg)
+                    return False
+
+                bad = None
+                for wn in [n for n in cfg.live if is_dep_write(n)]:
+                    if not cfg.all_paths_pass(wn, cfg.exit, is_reset, labels_avoid=("exc",)):
+                        bad = wn
+                        break
+                if bad is not None:
+                    rep.violation(
+                        g.qualname,
+                        f"{snippet(bad.ast)} without resetting {memo}",
+                        f"{f.qualname} memoises its result in {memo} and reads {attrs}; this writer can return without invalidating the memo: later queries describe the old line",
+                        where(g, bad.ast),
+                        inp='w = Wildcard("10.0.0.0 0.0.0.3"); w.ipnets(); w.line = "20.0.0.0 0.0.0.255"; w.ipnets()',
+                    )
+                else:
+                    rep.ok(f"{g.qualname} writes {attrs}", f"every path from the write to the normal exit resets {memo}", where=where(g))
+    return found
+
+
+def _instance_memo(f: Func) -> Optional[str]:
+    """Name of the attribute `f` uses as its own memo: returned when set, and assigned from the computed result."""
+    returned: Set[str] = set()
+    assigned: Set[str] = set()
+    for n in own_nodes(f.node):
+        if isinstance(n, ast.Return) and isinstance(n.value, ast.Attribute) and src(n.value.value) == "self":
+            returned.add(n.value.attr)
+        if isinstance(n, ast.Assign):
+            for t in n.targets:
+                if isinstance(t, ast.Attribute) and src(t.value) == "self":
+                    assigned.add(t.attr)
+    both = returned & assigned
+    if f.kind in ("setter",) or f.name == "__init__":
+        return None
+    return sorted(both)[0] if both else None
+
+
+def _mutable_after_init(ctx: Ctx, cls: Class) -> Set[str]:
+    out: Set[str] = set()
+    for c in cls.mro:
+        for g in c.all_funcs():
+            if g.name == "__init__":
+                continue
+            for n in own_nodes(g.node):
+                if isinstance(n, (ast.Assign, ast.AnnAssign, ast.AugAssign)):
+                    for t in n.targets if isinstance(n, ast.Assign) else [n.target]:
+                        if isinstance(t, ast.Attribute) and src(t.value) == "self":
+                            out.add(t.attr)
+    return out
+
+
+def _writers_of(ctx: Ctx, cls: Class, attr: str) -> List[str]:
+    out = []
+    for c in cls.mro:
+        for g in c.all_funcs():
+            if g.name == "__init__":
+                continue
+            for n in own_nodes(g.node):
+                if isinstance(n, (ast.Assign, ast.AnnAssign, ast.AugAssign)):
+                    for t in n.targets if isinstance(n, ast.Assign) else [n.target]:
+                        if isinstance(t, ast.Attribute) and src(t.value) == "self" and t.attr == attr:
+                            out.append(g.qualname)
+    return out
+
+
+def _hash_key(ctx: Ctx, cls: Class) -> Set[str]:
+    h = cls.lookup_method("__hash__")
+    e = cls.lookup_method("__eq__")
+    if h is None or e is None:
+        return set()
+    return ctx.effects.self_reads(h, None)
+
+
+def r05_2(ctx: Ctx, rep: Report) -> None:
+    rep.rule("R05.2")
+    ls = ctx.func("Wildcard.line.setter")
+    cfg = ctx.cfg(ls)
+    derived: Set[str] = set()
+    for n in own_nodes(ls.node):
+        if isinstance(n, (ast.Assign, ast.AnnAssign)):
+            for t in n.targets if isinstance(n, ast.Assign) else [n.target]:
+                if isinstance(t, ast.Attribute) and src(t.value) == "self":
+                    derived.add(t.attr)
+    surface = ["Wildcard.ipnets", "Wildcard.line.getter", "Wildcard.prefix.getter", "Wildcard.wildmask.getter", "Wildcard.data"]
+    reads: Set[str] = set()
+    for q in surface:
+        f = ctx.prog.find_func(q)
+        if f is not None:
+            reads |= ctx.effects.self_reads(f, None)
+    rep.instance()
+    rep.require(len(derived) >= 4, "Wildcard.line setter stores fewer than 4 attributes: anchor changed")
+    need = sorted(derived)
+    paths = [p for p in function_paths(cfg) if not p.raises]
+    for p in paths:
+        stored = set()
+        for node, lab in p.nodes:
+            if node.kind == "stmt" and isinstance(node.ast, (ast.Assign, ast.AnnAssign)):
+                for t in node.ast.targets if isinstance(node.ast, ast.Assign) else [node.ast.target]:
+                    if isinstance(t, ast.Attribute) and src(t.value) == "self":
+                        stored.add(t.attr)
+        miss = [a for a in need if a not in stored]
+        if miss:
+            rep.violation("Wildcard.line.setter", f"path stores {sorted(stored)}", f"a normal path of the setter leaves {miss} describing the previous line", where(ls))
+        else:
+            rep.ok("Wildcard.line.setter: normal path", f"assigns all of {need}", where=where(ls))
+    unread = sorted(a for a in reads if a.startswith("_") and a not in derived and a not in ("_platform", "_uuid", "_max_ncwb"))
+    for a in unread:
+        rep.note(f"R05.2 query surface reads {a}, which the line setter never assigns")
+
+
+def r05_3(ctx: Ctx, rep: Report) -> None:
+    rep.rule("R05.3")
+    ls = ctx.func("Wildcard.line.setter")
+    cfg = ctx.cfg(ls)
+    rep.instance()
+
+    def is_store(n: Node) -> bool:
+        if n.kind == "stmt" and isinstance(n.ast, (ast.Assign, ast.AnnAssign)):
+            return any(isinstance(t, ast.Attribute) and src(t.value) == "self" for t in (n.ast.targets if isinstance(n.ast, ast.Assign) else [n.ast.target]))
+        return False
+
+    stores = [n for n in cfg.live if is_store(n)]
+    raising: List[Tuple[Node, ast.AST, Dict]] = []
+    for n in cfg.live:
+        if n.ast is None or n.kind not in ("stmt", "cond"):
+            continue
+        for x in ast.walk(n.ast):
+            if isinstance(x, ast.Call):
+                r = ctx.excs.call_raises(ls, x)
+                if r:
+                    raising.append((n, x, r))
+    bad = None
+    for sn in stores:
+        after = cfg.reachable(sn, labels_avoid=("exc",))
+        for n, call, r in raising:
+            if n in after and (n is not sn):
+                bad = (sn, n, call, r)
+                break
+            if n is sn:
+                # the store's own right-hand side may raise before the store happens: fine
+                continue
+        if bad:
+            break
+    if bad:
+        sn, n, call, r = bad
+        cls_names = sorted(r)
+        rep.violation(
+            "Wildcard.line.setter",
+            f"{snippet(call)} after {snippet(sn.ast)}",
+            f"a call that may raise {cls_names} runs after the first attribute was stored: a rejected line leaves a hybrid object (new text, old bits)",
+            where(ls, call),
+            inp='w = Wildcard("10.0.0.0 0.0.1.3", max_ncwb=1); w.line = "20.0.0.0 0.0.5.3"  # rejected; then w.line / w.ipnets()',
+        )
+    else:
+        rep.ok("Wildcard.line.setter", f"{len(raising)} raising call(s), all before the first of {len(stores)} stores", where=where(ls))
+
+
+def r05_4(ctx: Ctx, rep: Report) -> None:  # noqa: C901
+    rep.rule("R05.4")
+    nb = ctx.func("Wildcard._ncw_bits")
+    cfg = ctx.cfg(nb)
+    rep.instance()
+    paths = function_paths(cfg)
+    normal = [p for p in paths if not p.raises]
+    raising = [p for p in paths if p.raises]
+    rep.require(bool(normal), "Wildcard._ncw_bits has no normal path")
+    ret_names = {src(p.ret) for p in normal if p.ret is not None}
+    ok_guard = False
+    detail = ""
+    for c in cfg.live:
+        if c.kind != "cond":
+            continue
+        t = c.ast
+        env = normal[0].env
+        rel = relation(
+            deep_resolve(t, env) if False else t,
+            lambda x: _is_len_of(x, ret_names, env),
+            lambda x: src(x) in ("self.max_ncwb", "self._max_ncwb") or (isinstance(x, ast.Name) and src(resolve_local(x, env)) in ("self.max_ncwb", "self._max_ncwb")),
+        )
+        if rel is None:
+            continue
+        raise_lab = "T"
+        tsucc = [s for lab, s in c.succ if lab == "T"]
+        # which edge leads to the raise?
+        t_raises = bool(tsucc) and cfg.exit not in cfg.reachable(tsucc[0], labels_avoid=("exc",))
+        f_succ = [s for lab, s in c.succ if lab == "F"]
+        f_raises = bool(f_succ) and cfg.exit not in cfg.reachable(f_succ[0], labels_avoid=("exc",))
+        if t_raises and not f_raises:
+            eff = rel
+        elif f_raises and not t_raises:
+            eff = {"a>b": "a<=b", "a>=b": "a<b", "a<b": "a>=b", "a<=b": "a>b", "a==b": "a!=b", "a!=b": "a==b"}[rel]
+        else:
+            continue
+        detail = f"`{snippet(t)}` raises when {eff.replace('a', 'count').replace('b', 'limit')}"
+        if eff == "a>b":
+            ok_guard = True
+            # the raise class
+            classes = set()
+            for p in raising:
+                for node, lab in p.nodes:
+                    if node.kind == "stmt" and isinstance(node.ast, ast.Raise):
+                        from ..cfg import raised_class
+
+                        classes.add(raised_class(node.ast))
+            if classes and not all(cn and exc_is_subclass(cn, "ValueError") for cn in classes):
+                rep.violation("Wildcard._ncw_bits", f"raises {sorted(map(str, classes))}", "the limit rejection is not a ValueError (NetmaskValueError)", where(nb))
+            # the return is reachable only through the non-raising edge
+            cut = {(c.id, "F" if t_raises else "T")}
+            if any(r in reachable_without_edges(cfg, cfg.entry, cut) for r in [n for n in cfg.live if n.kind == "stmt" and isinstance(n.ast, ast.Return)]):
+                rep.violation("Wildcard._ncw_bits", snippet(t), "the bits can be returned on a path that bypasses the limit check", where(nb, t))
+                ok_guard = False
+        else:
+            rep.violation(
+                "Wildcard._ncw_bits",
+                snippet(t),
+                f"the limit guard rejects when {eff.replace('a', 'count').replace('b', 'limit')}; the property rejects a mask needing *more* bits than the limit (count > limit)",
+                where(nb, t),
+                inp='Wildcard("10.0.0.0 0.0.1.3", max_ncwb=1)  # exactly at the limit',
+            )
+            return
+    if ok_guard:
+        rep.ok("Wildcard._ncw_bits", detail + "; count = len(<returned list>); the return is dominated by the passing edge", where=where(nb))
+    else:
+        rep.violation("Wildcard._ncw_bits", "limit guard", "no guard `len(<returned bits>) > self.max_ncwb` that raises dominates the return: an over-limit mask is expanded or truncated instead of rejected", where(nb))
+    # reached on every normal path from the setter
+    ls = ctx.func("Wildcard.line.setter")
+    reach_nb = {f for f in ctx.prog.funcs if nb in ctx.cg.reach([f], include_weak=False)}
+    rep.instance()
+    lcfg = ctx.cfg(ls)
+
+    def calls_into(n: Node) -> bool:
+        if n.ast is None:
+            return False
+        for x in ast.walk(n.ast):
+            if isinstance(x, (ast.Call, ast.Attribute)):
+                for e in ctx.cg.all_edges(ls):
+                    if e.site is x and isinstance(e.target, Func) and (e.target in reach_nb or e.target is nb):
+                        return True
+        return False
+
+    if lcfg.all_paths_pass(lcfg.entry, lcfg.exit, calls_into, labels_avoid=("exc",)):
+        rep.ok("Wildcard.line.setter", "every normal path passes a call that reaches _ncw_bits", where=where(ls))
+    else:
+        rep.violation("Wildcard.line.setter", "limit check", "a normal path of the setter does not reach the limit check", where(ls))
+    for q in sorted(f.qualname for f in reach_nb if f.cls is not None and f.cls.name == "Wildcard" and f is not nb and f is not ls and f.name.startswith("_") and not f.name.startswith("__")):
+        g = ctx.func(q)
+        gcfg = ctx.cfg(g)
+        rep.instance()
+
+        def calls_into_g(n: Node, g=g) -> bool:
+            if n.ast is None:
+                return False
+            for x in ast.walk(n.ast):
+                if isinstance(x, (ast.Call, ast.Attribute)):
+                    for e in ctx.cg.all_edges(g):
+                        if e.site is x and isinstance(e.target, Func) and (e.target in reach_nb or e.target is nb):
+                            return True
+            return False
+
+        if gcfg.all_paths_pass(gcfg.entry, gcfg.exit, calls_into_g, labels_avoid=("exc",)):
+            rep.ok(q, "every normal path reaches the limit check", where=where(g))
+        else:
+            rep.violation(q, "limit check", "a normal path returns without the limit check", where(g))
+    # single writer of _max_ncwb, value from init_max_ncwb, accepted interval [0, 30]
+    rep.instance()
+    wc = ctx.cls("Wildcard")
+    writers = []
+    for g in wc.all_funcs():
+        for n in own_nodes(g.node):
+            if isinstance(n, (ast.Assign, ast.AnnAssign)):
+                for t in n.targets if isinstance(n, ast.Assign) else [n.target]:
+                    if isinstance(t, ast.Attribute) and src(t.value) == "self" and t.attr == "_max_ncwb":
+                        writers.append((g, n))
+    if len(writers) != 1 or not (isinstance(writers[0][1].value, ast.Call) and src(writers[0][1].value.func).endswith("init_max_ncwb")):
+        rep.violation("Wildcard", f"_max_ncwb writers: {[g.qualname for g, _ in writers]}", "the limit must have one writer fed by init_max_ncwb (range and type validation)", "cisco_acl/wildcard.py")
+    else:
+        rep.ok("Wildcard._max_ncwb", f"single writer {writers[0][0].qualname} = {snippet(writers[0][1].value)}", where=where(writers[0][0]))
+    im = ctx.func("wildcard.init_max_ncwb")
+    rep.instance()
+    acc = IntSet.all()
+    typed = False
+    var = None
+    for n in own_nodes(im.node):
+        if isinstance(n, ast.If) and any(isinstance(s, ast.Raise) for s in n.body):
+            t = n.test
+            if isinstance(t, ast.UnaryOp) and isinstance(t.op, ast.Not) and isinstance(t.operand, ast.Call) and src(t.operand.func) == "isinstance":
+                spec = src(t.operand.args[1]) if len(t.operand.args) > 1 else ""
+                if spec == "int":
+                    typed = True
+                    var = src(t.operand.args[0])
+                continue
+            try:
+                names = {x.id for x in ast.walk(t) if isinstance(x, ast.Name)}
+                cand = [v for v in names if v in ("max_ncwb",)] or sorted(names)
+                v0 = cand[0] if cand else ""
+                bad = cond_to_intset(t, lambda x, v0=v0: isinstance(x, ast.Name) and x.id == v0, lambda x: ctx.folder.fold(x, im.module))
+                acc = acc.intersect(bad.complement())
+            except NotInterval:
+                continue
+    if acc == IntSet([(0, 30)]) and typed:
+        rep.ok("wildcard.init_max_ncwb", f"accepts integers {acc} after an isinstance(int) guard", where=where(im))
+    else:
+        rep.violation("wildcard.init_max_ncwb", f"accepted limits {acc}, int guard={typed}", "the configured limit ranges over 0..30", where(im))
+
+
+def _is_len_of(x: ast.AST, names: Set[str], env) -> bool:
+    x = resolve_local(x, env)
+    return isinstance(x, ast.Call) and isinstance(x.func, ast.Name) and x.func.id == "len" and len(x.args) == 1 and src(x.args[0]) in names
+
+
+def r05_5(ctx: Ctx, rep: Report) -> None:
+    rep.rule("R05.5")
+    nb = ctx.func("Wildcard._ncw_bits")
+    reach_nb = {f for f in ctx.prog.funcs if nb in ctx.cg.reach([f], include_weak=False)}
+    n_try = 0
+    for f in ctx.prog.funcs:
+        for t in own_nodes(f.node):
+            if not isinstance(t, ast.Try):
+                continue
+            # does the try body contain a call that reaches the limit check?
+            hit = None
+            for st in t.body:
+                for x in ast.walk(st):
+                    if isinstance(x, (ast.Call, ast.Attribute)):
+                        for e in ctx.cg.all_edges(f):
+                            if e.site is x and isinstance(e.target, Func) and not e.weak and (e.target in reach_nb):
+                                hit = x
+            if hit is None:
+                continue
+            n_try += 1
+            rep.instance()
+            first = None
+            for h in t.handlers:
+                caught = handler_classes(h)
+                if not caught or any(exc_is_subclass("NetmaskValueError", c) for c in caught):
+                    first = h
+                    break
+            if first is None:
+                rep.ok(f"{f.qualname}: try around {snippet(hit, 40)}", "no handler catches NetmaskValueError", where=where(f, t))
+                continue
+            reraises = _always_reraises(first)
+            if reraises:
+                rep.ok(f"{f.qualname}: except {', '.join(handler_classes(first)) or '<bare>'}", "first matching handler re-raises the limit rejection", where=where(f, first))
+            elif f.qualname in C12_GOVERNED:
+                rep.ok(f"{f.qualname}: except {', '.join(handler_classes(first))}", C12_GOVERNED[f.qualname], nontrivial=False, where=where(f, first))
+            else:
+                rep.violation(
+                    f.qualname,
+                    f"except {', '.join(handler_classes(first)) or '<bare>'} around {snippet(hit, 50)}",
+                    "a handler on the way from the limit check to the constructors catches the over-limit rejection without re-raising it: the entry is dropped or approximated instead of rejected",
+                    where(f, first),
+                    inp='Acl("ip access-list extended A\\n permit ip 10.0.0.0 0.255.255.3 any", max_ncwb=1)',
+                )
+    rep.floor(1, "try statements on the path from the limit check")
+
+
+def _always_reraises(h: ast.ExceptHandler) -> bool:
+    body = [s for s in h.body if not (isinstance(s, ast.Expr) and isinstance(s.value, ast.Constant))]
+    if not body:
+        return False
+    last = body[-1]
+    if isinstance(last, ast.Raise) and (last.exc is None or (h.name and src(last.exc) == h.name)):
+        return all(not isinstance(s, (ast.Return, ast.Continue, ast.Break)) for s in body[:-1])
+    return False
+
+
+def run(ctx: Ctx, rep: Report, tier: str) -> None:
+    n = memo_rules(ctx, rep)
+    # positive fixture: the functools-cache form must be recognised on every run
+    from ..fixtures import run_fixture
+
+    run_fixture("memo", lambda c, r: memo_rules(c, r, rid="R05.1"), expect_violation="lru_cache")
+    rep.rule("R05.1")
+    rep.floor(1, "memoised methods (functools cache or instance memo)") if n else rep.note("R05.1 no memoised method in the package (nothing can go stale)")
+    r05_2(ctx, rep)
+    r05_3(ctx, rep)
+    r05_4(ctx, rep)
+    r05_5(ctx, rep)
